@@ -178,6 +178,21 @@ def container_element_edits(base):
         pr = c06.find(p, "Proto")
         pr.steps = [(n, Map(P("string"), P(nt)) if n == "m" else t) for n, t in pr.steps]
         out.append(("container-element-primitive/step-map-value:int32->%s" % nt, "partial", p))
+    # the generic record Pair<A, B> is instantiated six times in the model (steps, stream items, fields): field-level changes of the
+    # generic definition itself
+    from am import Opt
+    p = clone()
+    r = c06.find(p, "Pair")
+    r.fields = list(reversed(r.fields))
+    out.append(("generic-record/reorder-fields:Pair", "compatible", p))
+    p = clone()
+    r = c06.find(p, "Pair")
+    r.fields = r.fields + [("c", Opt(P("int32")))]
+    out.append(("generic-record/add-optional-field:Pair.c", "compatible", p))
+    p = clone()
+    r = c06.find(p, "Pair")
+    r.fields = [("c", P("string"))] + r.fields
+    out.append(("generic-record/add-required-field-first:Pair.c", "compatible", p))
     return out
 
 
@@ -268,7 +283,7 @@ def main(tier):
             kind = lab.split("/")[0]
             if kind in ("add-comment", "reorder-definitions", "add-unused-types", "add-unrelated-protocol"):
                 continue
-            if kind not in seen or kind in ("change-primitive", "change-primitive-step", "remove-field", "container-element-primitive"):
+            if kind not in seen or kind in ("change-primitive", "change-primitive-step", "remove-field", "container-element-primitive", "generic-record"):
                 seen.add(kind)
                 sel.append((lab, cls, p))
         all_edits = sel
@@ -328,6 +343,11 @@ def main(tier):
                     continue
                 seen2.add(kind2)
                 chain_jobs.append(("chain:%s>%s" % (lab1, lab2), "chain", p2, [("v0", base, base_pr), ("v1", p1, mpr)], k, "c%d" % next(idx)))
+                if kind2 != lab1.split("/")[0] and not any(j[0].startswith("chain-newest-first:%s>" % lab1) for j in chain_jobs):
+                    # the same chain with the versions listed newest first, and with a listed version that equals the current model
+                    # (nothing changed since that release) ahead of the changed ones
+                    chain_jobs.append(("chain-newest-first:%s>%s" % (lab1, lab2), "chain", p2, [("v1", p1, mpr), ("v0", base, base_pr)], k, "c%d" % next(idx)))
+                    chain_jobs.append(("chain-unchanged-release-first:%s>%s" % (lab1, lab2), "chain", p2, [("v2", copy.deepcopy(p2), None), ("v1", p1, mpr), ("v0", base, base_pr)], k, "c%d" % next(idx)))
                 if quick and len(seen2) >= 2:
                     break
         ch = list(pool.map(run_edit, chain_jobs))
